@@ -1,5 +1,181 @@
+(* C20/Properties.v — the property theorems only.  Each is closed by [exact] of a lemma from Proofs.v
+   (or by vm_compute for a concrete witness) and followed by Print Assumptions.
+
+   The machine of Model.v has two variants.  [Repaired] is the algorithm after
+   fixes/C20_series_accounting.patch; single-threaded it is observationally identical to today's code
+   (the check runs every sequential history against both variants).  [Defective] is today's algorithm.
+   The "for all interleavings" theorems are about [run_sched c (sys0 progs) sched] for EVERY list of client
+   programs and EVERY schedule (list of thread indices; each element = one atomic sync.Map / atomic step). *)
 From OV Require Import Common.Base C20.Model C20.Proofs.
-Example C20_delimiter_example :
+Open Scope Z_scope.
+
+(* ---------------------------------------------------------------- label tuples and the hash *)
+(* hashLabelValues is FNV-1a over the label values joined by the 0xFF delimiter *)
+Theorem C20_hash_is_fnv_of_input : forall t, hash_tuple t = hash_bytes fnv_offset (hash_input t).
+Proof. exact hash_is_fnv_of_input. Qed.
+Print Assumptions C20_hash_is_fnv_of_input.
+
+(* tuples of equal arity without a 0xFF byte (every valid UTF-8 string) are hashed from different byte
+   streams: ("ab","c") / ("a","bc") / ("abc","") cannot be confused by concatenation *)
+Theorem C20_delimiter_injective : forall t1 t2,
+  no_delim t1 -> no_delim t2 -> length t1 = length t2 -> hash_input t1 = hash_input t2 -> t1 = t2.
+Proof. exact delimiter_injective. Qed.
+Print Assumptions C20_delimiter_injective.
+
+Example C20_delimiter_nonvacuous :
+  no_delim [[97;98];[99]]%N /\ no_delim [[97];[98;99]]%N /\
+  hash_input [[97;98];[99]]%N <> hash_input [[97];[98;99]]%N /\
   hash_tuple [[97;98];[99]]%N <> hash_tuple [[97];[98;99]]%N.
-Proof. vm_compute. discriminate. Qed.
-Print Assumptions C20_delimiter_example.
+Proof.
+  repeat split; try (vm_compute; discriminate);
+    intros v [<-|[<-|[]]] H; vm_compute in H; repeat (destruct H as [H|H]; [discriminate|]); exact H.
+Qed.
+Print Assumptions C20_delimiter_nonvacuous.
+
+(* Go strings may contain 0xFF: then two DISTINCT tuples of the same arity have the same 64-bit hash, so the
+   labelValuesEqual verification after every Load / LoadOrStore is what keeps them apart, not the hash *)
+Theorem C20_hash_collision_exists : exists t1 t2 : tuple,
+  t1 <> t2 /\ length t1 = length t2 /\ hash_tuple t1 = hash_tuple t2 /\ tuple_eqb t1 t2 = false.
+Proof. exists [[97;255];[98]]%N, [[97];[255;98]]%N. vm_compute. repeat split; discriminate. Qed.
+Print Assumptions C20_hash_collision_exists.
+
+(* tuple identity: resolving or emitting by tuple t selects a series only if it carries exactly t —
+   whatever is stored under the same hash (hash collisions included) *)
+Theorem C20_tuple_identity : forall s t id,
+  lookup s t = Some id -> exists h, get_handle s id = Some h /\ h_tuple h = t.
+Proof. exact lookup_sound. Qed.
+Print Assumptions C20_tuple_identity.
+
+Theorem C20_label_equality_exact : forall a b, tuple_eqb a b = true <-> a = b.
+Proof. exact tuple_eqb_eq. Qed.
+Print Assumptions C20_label_equality_exact.
+
+(* ---------------------------------------------------------------- all interleavings, repaired machine *)
+(* distinct live series carry distinct tuples (one tuple never has two series, two tuples never share one) *)
+Theorem C20_conc_series_distinct : forall c progs sched,
+  c_variant c = Repaired ->
+  let x := run_sched c (sys0 progs) sched in
+  forall k1 id1 k2 id2 h1 h2, In (k1, id1) (smap (sh x)) -> In (k2, id2) (smap (sh x)) ->
+    get_handle (sh x) id1 = Some h1 -> get_handle (sh x) id2 = Some h2 ->
+    h_tuple h1 = h_tuple h2 -> id1 = id2.
+Proof. exact conc_series_distinct. Qed.
+Print Assumptions C20_conc_series_distinct.
+
+(* no published handle is ever orphaned: at every point of every schedule each series handle that was ever
+   handed out is either reachable from the series map (snapshots see it) or was removed by an
+   UnregisterSeries (emissions through it are stale-handle emissions) *)
+Theorem C20_conc_no_orphan : forall c progs sched,
+  c_variant c = Repaired ->
+  let x := run_sched c (sys0 progs) sched in
+  forall id, (id < length (hs (sh x)))%nat -> orphan (sh x) id = false.
+Proof. exact conc_no_orphan. Qed.
+Print Assumptions C20_conc_no_orphan.
+
+(* the cap is never exceeded, not even transiently; seriesCount never under-counts, and is exact at quiescence *)
+Theorem C20_conc_cap : forall c progs sched,
+  c_variant c = Repaired ->
+  let x := run_sched c (sys0 progs) sched in
+  (0 < c_cap c -> Z.of_nat (length (snapshot (sh x))) <= c_cap c) /\
+  Z.of_nat (length (smap (sh x))) <= cnt (sh x) /\
+  (quiescent x = true -> cnt (sh x) = Z.of_nat (length (smap (sh x)))).
+Proof. exact conc_cap. Qed.
+Print Assumptions C20_conc_cap.
+
+(* ---------------------------------------------------------------- all interleavings, BOTH variants *)
+(* conservation: at quiescence, (sum over every series ever published) + cardinality_drops + unknown_series_emits
+   + stale_handle_emits (+ the ghost no-op weight, 0 unless a client emits through a handle it never obtained)
+   equals the sum of the emitted weights, modulo 2^64 (uint64 counters).  Counters: weight = delta, series scalar
+   = value.  Histograms: weight = 1, series scalar = count.  (Gauges have no scalar that counts emissions.)
+   Together with C20_conc_no_orphan the first summand is exactly: live series (the snapshot) + unregistered series. *)
+Theorem C20_conc_conservation : forall c progs sched,
+  c_kind c <> KGauge ->
+  let x := run_sched c (sys0 progs) sched in
+  quiescent x = true ->
+  total (c_kind c) (sh x) mod M64 = progs_weight (c_kind c) progs mod M64.
+Proof. exact conc_conservation. Qed.
+Print Assumptions C20_conc_conservation.
+
+(* non-blocking: whatever the shared state (i.e. whatever other emitters, snapshots, subscribers or the tick
+   did in between) every step of an unfinished client is enabled and strictly decreases a bound that depends
+   on the client alone: each operation is wait-free, at most 7 atomic steps *)
+Theorem C20_emit_nonblocking : forall c s th,
+  finished th = false -> (budget (snd (tstep c s th)) < budget th)%nat.
+Proof. exact tstep_progress. Qed.
+Print Assumptions C20_emit_nonblocking.
+
+Theorem C20_seq_never_out_of_fuel : forall c s slots o, exists r, snd (seq_op c s slots o) = Some r.
+Proof. exact seq_op_completes. Qed.
+Print Assumptions C20_seq_never_out_of_fuel.
+
+(* the tick never blocks on a subscriber, even one that never reads: publishing n samples terminates with the
+   channel within capacity and every sample either delivered or counted in the subscription's drop counter *)
+Theorem C20_tick_never_blocks : forall n b, sb_unsub b = false -> (sb_len b <= sb_cap b)%nat ->
+  let b' := sub_publish_n n b in
+  sb_delivered b' + sb_dropped b' = sb_delivered b + sb_dropped b + Z.of_nat n /\ (sb_len b' <= sb_cap b')%nat.
+Proof. exact sub_publish_n_account. Qed.
+Print Assumptions C20_tick_never_blocks.
+
+(* ---------------------------------------------------------------- what today's code violates *)
+Definition tA : tuple := [[65]]%N.
+Definition tB : tuple := [[66]]%N.
+Definition tC : tuple := [[67]]%N.
+Definition tD : tuple := [[68]]%N.
+Definition cfg_of (v : variant) (cap : Z) : cfg :=
+  {| c_kind := KCounter; c_cap := cap; c_nlabels := 1; c_buckets := []; c_variant := v |}.
+(* what a quiescent snapshot plus the internal drop metrics show *)
+Definition visible (k : kind) (s : shared) : Z :=
+  fold_right (fun tv a => measure k (snd tv) + a) 0 (snapshot s) + drops s + unknown s + stales s.
+
+(* witness 1 (cap 1).  T0 and T1 create A and B concurrently, both pass the seriesCount check and publish;
+   T2 resolves A and gets T0's published handle; T0 then sees count 2 > 1 and rolls back with Delete.
+   T2's handle is now in no map and not stale: its Add(5) is visible nowhere. *)
+Definition w1_progs : list (list op) :=
+  [[OResolve tA]; [OResolve tB]; [OResolve tA; OEmitH 0 EAdd 5]].
+Definition w1_sched : list nat := [0;0;0; 1;1;1; 0; 1; 2; 0;0;0; 1; 2;2]%nat.
+
+Theorem C20_conc_no_orphan_refuted :
+  let x := run_sched (cfg_of Defective 1) (sys0 w1_progs) w1_sched in
+  quiescent x = true /\
+  (exists th, nth_error (ths x) 2 = Some th /\ t_slots th = [RH 0]) /\   (* the client holds series handle 0 *)
+  orphan (sh x) 0 = true /\                                              (* which is orphaned *)
+  visible KCounter (sh x) = 0 /\ progs_weight KCounter w1_progs = 5.     (* 5 emitted, 0 accounted *)
+Proof. vm_compute. repeat split; try reflexivity. eexists; split; reflexivity. Qed.
+Print Assumptions C20_conc_no_orphan_refuted.
+
+(* the same programs and schedule on the repaired machine: nothing is lost *)
+Example C20_conc_no_orphan_nonvacuous :
+  let x := run_sched (cfg_of Repaired 1) (sys0 w1_progs) (w1_sched ++ w1_sched) in
+  quiescent x = true /\ length (hs (sh x)) = 1%nat /\ orphan (sh x) 0 = false /\
+  visible KCounter (sh x) = 5 /\ Z.of_nat (length (snapshot (sh x))) = 1 /\ cnt (sh x) = 1.
+Proof. vm_compute. repeat split; reflexivity. Qed.
+Print Assumptions C20_conc_no_orphan_nonvacuous.
+
+(* witness 2 (cap 2).  A and B exist; two UnregisterSeries(A) both Load the entry, both Delete, both decrement:
+   seriesCount = 0 with one series left; C and D are then admitted: 3 series under a cap of 2. *)
+Definition w2_progs : list (list op) :=
+  [[OResolve tA; OResolve tB; OUnreg tA]; [OUnreg tA; OResolve tC; OResolve tD]].
+Definition w2_sched : list nat := (repeat 0 10 ++ [0;1; 0;0;0; 1;1;1] ++ repeat 1 10)%nat.
+
+Theorem C20_conc_cap_refuted :
+  let x := run_sched (cfg_of Defective 2) (sys0 w2_progs) w2_sched in
+  quiescent x = true /\ length (snapshot (sh x)) = 3%nat /\ cnt (sh x) = 2 /\
+  (exists t0 t1, nth_error (ths x) 0 = Some t0 /\ nth_error (ths x) 1 = Some t1 /\
+     hd_error (t_out t0) = Some (ResB true) /\ last (t_out t1) ResU = ResB true).   (* both unregisters said true *)
+Proof. vm_compute. repeat split; try reflexivity. do 2 eexists; repeat split; reflexivity. Qed.
+Print Assumptions C20_conc_cap_refuted.
+
+Example C20_conc_cap_nonvacuous :
+  let x := run_sched (cfg_of Repaired 2) (sys0 w2_progs) (w2_sched ++ repeat 1%nat 10) in
+  quiescent x = true /\ length (snapshot (sh x)) = 2%nat /\ cnt (sh x) = 2 /\ drops (sh x) = 0 /\
+  (exists t1, nth_error (ths x) 1 = Some t1 /\ last (t_out t1) ResU = ResB false /\ hd_error (t_out t1) = Some (ResH RTomb)).
+Proof. vm_compute. repeat split; try reflexivity. eexists; repeat split; reflexivity. Qed.
+Print Assumptions C20_conc_cap_nonvacuous.
+
+(* conservation is not vacuous: a quiescent run with emissions landing in a series, in drops, in unknown and in stale *)
+Example C20_conc_conservation_nonvacuous :
+  let progs := [[OResolve tA; OEmitH 0 EAdd 3; OResolve tB; OEmitH 1 EAdd 4; OEmitT tC EAdd 5; OUnreg tA; OEmitH 0 EAdd 6]] in
+  let x := run_sched (cfg_of Repaired 1) (sys0 progs) (repeat 0%nat 40) in
+  quiescent x = true /\ total KCounter (sh x) = 18 /\ progs_weight KCounter progs = 18 /\
+  drops (sh x) = 4 /\ unknown (sh x) = 5 /\ stales (sh x) = 6 /\ noop (sh x) = 0.
+Proof. vm_compute. repeat split; reflexivity. Qed.
+Print Assumptions C20_conc_conservation_nonvacuous.
